@@ -483,6 +483,11 @@ def c18(ctx):
     for sc in ("race-samekey", "race-samedir"):
         fs_stage(ctx, sc, sample=3000 if quick else None)
     fs_stage(ctx, "race-mixed", sample=3000 if quick else 30000)
+    # B3 without bounds: the TLAPS proof that AtomicVisibility, ReaderSeesAbsentOrComplete and AckedIsVisible are
+    # invariants of FsStore!Spec for every number of writers / readers / keys / chunks, crashes, faults and cancellations
+    # (about the specification only: it changes when the specification changes; run in the thorough tier)
+    if not quick:
+        ctx.tlaps("FsStoreProof")
     # B3 only: three writers + reader, all interleavings (history hidden by the VIEW)
     ctx.tlc("FsStoreGen", fs_cfg("race-3", emit=False, view=True), workers=8, timeout=2400)
     # cancellation: B3 on GiveUp (a writer that notices its cancelled context may abandon, next to a concurrent
